@@ -1,6 +1,6 @@
 """C09 — stopping requests take effect at the very evaluation that triggers them."""
 import runlevel
-MODULES = ["CobyqaVerif.Props.C09"]
+MODULES = ["CobyqaVerif.Props.C09", "CobyqaVerif.Props.C07Point"]
 LEVEL = "proof"
 
 
